@@ -1,3 +1,4 @@
 import H2.Base
 import H2.Driver
 import H2.Props.C15
+import H2.Props.C06
